@@ -405,6 +405,52 @@ Proof.
   rewrite lookup_write_all. rewrite (last_write_nodup p n b N H). reflexivity.
 Qed.
 
+(* ------------------------------------------------------------------ interpreter-global state *)
+(* a generation without the plugin never changes the shared nodes *)
+Theorem gen_plain_keeps_state copy wanted st : snd (gen_client_imports copy false wanted st) = st.
+Proof. reflexivity. Qed.
+
+(* with the fix no generation does *)
+Theorem gen_fixed_keeps_state plugin wanted st : snd (gen_client_imports true plugin wanted st) = st.
+Proof. unfold gen_client_imports. destruct plugin; reflexivity. Qed.
+
+Lemma run_history_fixed hist : forall st, run_history true hist st = st.
+Proof.
+  unfold run_history. induction hist as [|h r IH]; intro st; simpl; auto.
+  rewrite gen_fixed_keeps_state. apply IH.
+Qed.
+
+(* with the fix, what a generation emits does not depend on what the interpreter generated before *)
+Theorem gen_fixed_history_independent hist plugin wanted st :
+  fst (gen_client_imports true plugin wanted (run_history true hist st)) =
+  fst (gen_client_imports true plugin wanted st).
+Proof. rewrite run_history_fixed. reflexivity. Qed.
+
+Lemma run_history_plain copy hist : forall st,
+  forallb (fun h => negb (fst h)) hist = true -> run_history copy hist st = st.
+Proof.
+  unfold run_history. induction hist as [|[p w] r IH]; intros st H; simpl in *; auto.
+  apply andb_true_iff in H. destruct H as [Hp Hr]. destruct p; [discriminate|]. simpl. apply IH; exact Hr.
+Qed.
+
+(* the code as it is: history-independent as long as no earlier generation used the plugin *)
+Theorem gen_history_partial hist plugin wanted st :
+  forallb (fun h => negb (fst h)) hist = true ->
+  fst (gen_client_imports false plugin wanted (run_history false hist st)) =
+  fst (gen_client_imports false plugin wanted st).
+Proof. intro H. rewrite run_history_plain by exact H. reflexivity. Qed.
+
+(* ... and refuted otherwise: a plain generation after a plugin one, and the plugin one repeated *)
+Theorem gen_history_refuted : exists hist plugin wanted st,
+  fst (gen_client_imports false plugin wanted (run_history false hist st)) <>
+  fst (gen_client_imports false plugin wanted st).
+Proof. exists [(true, ["UnsetType"])], false, [], st_initial. vm_compute. discriminate. Qed.
+
+Theorem gen_twice_with_plugin_refuted : exists wanted st,
+  fst (gen_client_imports false true wanted (snd (gen_client_imports false true wanted st))) <>
+  fst (gen_client_imports false true wanted st).
+Proof. exists ["UnsetType"], st_initial. vm_compute. discriminate. Qed.
+
 (* ------------------------------------------------------------------ the site table *)
 Theorem observe_independent k : order_sensitive k = false ->
   forall l c1 c2 probe, observe k (permute c1 l) probe = observe k (permute c2 l) probe.
